@@ -149,9 +149,9 @@ func c07(c *core.Ctx, r *core.Report) {
 	})
 
 	tpkg := "pkg/f1/testing"
-	failedFld := c.Field(tpkg, "T", "failed")
-	tdFailedFld := c.Field(tpkg, "T", "teardownFailed")
-	tearingFld := c.Field(tpkg, "T", "tearingDown")
+	failedFld := handleFields(c).failed
+	tdFailedFld := handleFields(c).tdFailed
+	tearingFld := handleFields(c).tearing
 	isFail := func(f *ssa.Function) bool {
 		return isMethod(f, testingPkg, "T", "Fail") || isMethod(f, testingPkg, "T", "FailNow")
 	}
@@ -368,26 +368,26 @@ func c07(c *core.Ctx, r *core.Report) {
 		r.Floor("stores to T.failed", n, 2)
 		resetClears(c, r)
 		// outcome read vs. cleanups in the iteration runner
-		runner, _, frame := iterationRunner(c)
-		var failedRead ssa.CallInstruction
-		for _, call := range an.AllCalls(runner) {
-			if isMethod(an.Callee(call), testingPkg, "T", "Failed") {
-				failedRead = call
-			}
-		}
-		if failedRead == nil {
+		runner, bodyEv, _ := userRunner(c, "RunFn", func(t *ssa.Function) bool { return isStatsRecord(t) || isMetricsIter(t) })
+		reads := an.FlatCalls(runner, flatDepth, func(_ ssa.CallInstruction, t *ssa.Function) bool { return isMethod(t, testingPkg, "T", "Failed") })
+		if len(reads) == 0 {
 			r.Violation(core.FuncName(runner)+"#outcome-read", c.Pos(runner.Pos()), "the iteration runner never reads T.Failed()")
 			return
 		}
-		okOrder := an.Dominates(frame, failedRead)
-		for _, call := range an.AllCalls(runner) {
-			if fld, owner := an.TerminalField(call.Common().Value); fld != nil && an.IsNamed(owner, workersPkg, "iterationState") && fld.Name() == "teardown" {
-				if _, isDefer := call.(*ssa.Defer); !isDefer && !an.Dominates(failedRead, call) {
-					okOrder = false
-				}
+		failedRead := reads[len(reads)-1]
+		okOrder := an.Before(bodyEv, failedRead)
+		for _, e := range an.FlatCalls(runner, flatDepth, func(call ssa.CallInstruction, t *ssa.Function) bool {
+			if t != nil || call.Common().IsInvoke() {
+				return false
+			}
+			fld, owner := an.TerminalField(call.Common().Value)
+			return fld != nil && an.IsNamed(owner, workersPkg, "iterationState") && fld.Name() == "teardown"
+		}) {
+			if _, isDefer := e.Instr.(*ssa.Defer); !isDefer && !an.Before(failedRead, e) {
+				okOrder = false
 			}
 		}
-		r.Check(okOrder, core.FuncName(runner)+"#outcome-read", an.Pos(c, failedRead), "outcome read after the recovered body and before the cleanups", "the outcome is read before the body ran or after the cleanups: the iteration is classified by the wrong state")
+		r.Check(okOrder, core.FuncName(runner)+"#outcome-read", an.Pos(c, failedRead.Instr), "outcome read after the recovered body and before the cleanups", "the outcome is read before the body ran or after the cleanups: the iteration is classified by the wrong state")
 	})
 }
 
@@ -464,13 +464,13 @@ func resetClearsOnly(c *core.Ctx, r *core.Report, only string) {
 		}
 	}
 	targets := []tgt{
-		{"failed=false", atomicFalse(c.Field(tpkg, "T", "failed"))},
-		{"teardownFailed=false", atomicFalse(c.Field(tpkg, "T", "teardownFailed"))},
-		{"tearingDown=false", plainStore(c.Field(tpkg, "T", "tearingDown"), func(v ssa.Value) bool {
+		{"failed=false", atomicFalse(handleFields(c).failed)},
+		{"teardownFailed=false", atomicFalse(handleFields(c).tdFailed)},
+		{"tearingDown=false", plainStore(handleFields(c).tearing, func(v ssa.Value) bool {
 			k, ok := v.(*ssa.Const)
 			return ok && k.Value != nil && k.Value.String() == "false"
 		})},
-		{"teardownStack=empty", plainStore(c.Field(tpkg, "T", "teardownStack"), func(v ssa.Value) bool {
+		{"teardownStack=empty", plainStore(handleFields(c).stack, func(v ssa.Value) bool {
 			d := an.D().Of(v)
 			return strings.HasPrefix(d, "local:") || strings.HasPrefix(d, "make(slice") || d == "nil" || strings.Contains(d, "[:]") || strings.Contains(d, "[:0]")
 		})},
